@@ -542,3 +542,81 @@ def compile_pipeline(repo, res):
             run(ns)
         except Raised as e:
             res.fail(key, f"the valid namespace {ns!r} is rejected ({e.what})", loc)
+
+
+@rule(
+    "EXPR-PREPROCESS",
+    ["C19", "C09", "C04"],
+    "_analyze_expression interpreted with recording stand-ins for the UFL passes: an expression gets the complex-mode treatment UFL's "
+    "compute_form_data gives a form - in complex mode the comparison check (ordering of complex values is rejected, real operands are "
+    "wrapped in Real) right after algebra lowering, in real mode the removal of complex nodes as the last step - and the lowering passes "
+    "in UFL's order (algebra, derivatives, pullbacks, geometry with the Jacobian preserved, derivatives again)",
+    min_instances=4,
+)
+def expr_preprocess(repo, res):
+    from ..npmodel import install as _install_np
+
+    m = repo.mod(AN)
+    f = m.func("_analyze_expression")
+    res.functions.add(f.key)
+    loc = m.line(f.node)
+    passes = ["apply_algebra_lowering", "apply_derivatives", "apply_function_pullbacks", "apply_geometry_lowering", "remove_complex_nodes", "do_comparison_check",
+              "apply_coefficient_splitting", "apply_integral_scaling", "apply_default_expansions", "apply_coordinate_element_mapping"]
+    for st in ("float32", "float64", "complex64", "complex128"):
+        key = f"{f.key}:{st}"
+        res.ob(key)
+        it = _install_np(Interp(repo, load_classes(repo), primary=AN))
+        log = []
+
+        def stub(name):
+            def run(e, *a, **k):
+                log.append((name, a, k))
+                return ("after", name, e)
+            return _PyCall(run)
+        for p_ in passes:
+            for pre in (f"ufl.algorithms.{p_}.{p_}", f"ufl.algorithms.{p_}", p_, f"ufl.algorithms.comparison_checker.{p_}", f"ufl.algorithms.remove_complex_nodes.{p_}"):
+                it.overrides[pre] = stub(p_)
+        it.overrides["ufl.classes.Jacobian"] = "Jacobian"
+        try:
+            out = it.call_f(f, ["EXPR", st])
+        except Raised as e:
+            res.fail(key, f"_analyze_expression raises ({e.what}) for scalar type {st}", loc)
+            continue
+        chain = [n_ for n_, _a, _k in log]
+        is_complex = st.startswith("complex")
+        msgs = []
+        if chain[:1] != ["apply_algebra_lowering"]:
+            msgs.append(f"the first pass is {chain[:1]}, not algebra lowering")
+        if is_complex:
+            if "do_comparison_check" not in chain:
+                msgs.append("in complex mode the comparison check is not applied: `conditional(lt(f, 0.5), 1.0, 2.0)` with a complex coefficient f is emitted as "
+                            "`w0 < 0.5` on a `double _Complex` (not valid C), and comparisons of real-valued operands are not wrapped in Real - UFL's "
+                            "compute_form_data applies do_comparison_check to forms right after algebra lowering, expressions are not checked by UFL")
+            elif chain.index("do_comparison_check") != 1:
+                msgs.append(f"the comparison check runs as pass {chain.index('do_comparison_check')}, not right after algebra lowering (derivatives of the inserted Real nodes "
+                            "must be handled by the later passes, as for forms)")
+            if "remove_complex_nodes" in chain:
+                msgs.append("complex nodes are removed in complex mode")
+        else:
+            if chain[-1:] != ["remove_complex_nodes"]:
+                msgs.append(f"in real mode the last pass is {chain[-1:]}, not the removal of complex nodes (conj / real / imag survive into a real kernel)")
+            if "do_comparison_check" in chain:
+                msgs.append("the comparison check is applied in real mode (it wraps operands in Real)")
+        want_core = ["apply_derivatives", "apply_function_pullbacks", "apply_geometry_lowering", "apply_derivatives"]
+        core = [n_ for n_ in chain if n_ in ("apply_derivatives", "apply_function_pullbacks", "apply_geometry_lowering")]
+        if core[:4] != want_core:
+            msgs.append(f"the lowering passes run as {core}, expected derivatives, pullbacks, geometry lowering, derivatives (...) as in compute_form_data")
+        for n_, a_, k_ in log:
+            if n_ == "apply_geometry_lowering" and not (a_ and "Jacobian" in str(a_[0])) and "Jacobian" not in str(k_):
+                msgs.append("geometry lowering is not told to preserve the Jacobian (FFCx generates it from the coordinate dofs itself)")
+                break
+        # the result is what the last pass returned, each pass applied to the previous result
+        x = out
+        depth = 0
+        while isinstance(x, tuple) and len(x) == 3 and x[0] == "after":
+            x = x[2]
+            depth += 1
+        if x != "EXPR" or depth != len(chain):
+            msgs.append(f"the result is not the chain of all {len(chain)} passes applied to the expression (a pass result is dropped)")
+        for msg in msgs:
+            res.fail(key, f"scalar type {st}: {msg}", loc, props=("C19", "C09", "C04"))
